@@ -141,6 +141,12 @@ func (l *staticLeaf) match(segment string, _ Params, header http.Header) bool {
 }
 
 func (l *staticLeaf) Static() bool {
+	// The text of a route with an optional segment (e.g. "/a/?b") is not a request
+	// path that the route matches, so it cannot be looked up by the request path.
+	if l.segment.Optional {
+		return false
+	}
+
 	ancestor := l.parent
 	for ancestor != nil {
 		if ancestor.getMatchStyle() > matchStyleStatic {
